@@ -162,6 +162,14 @@ archive_write_shar_header(struct archive_write *a, struct archive_entry *entry)
 	struct shar *shar;
 
 	shar = (struct shar *)a->format_data;
+
+	/* Sanity check. */
+	if (archive_entry_pathname(entry) == NULL) {
+		archive_set_error(&a->archive, ARCHIVE_ERRNO_MISC,
+		    "Can't record entry in shar file without pathname");
+		return (ARCHIVE_FAILED);
+	}
+
 	if (!shar->wrote_header) {
 		archive_strcat(&shar->work, "#!/bin/sh\n");
 		archive_strcat(&shar->work, "# This is a shell archive\n");
